@@ -83,3 +83,81 @@ Proof.
         exists m'. split; [destruct (pm_mark m0); exact N'|].
         rewrite T', iter_pres_trail by reflexivity. reflexivity.
 Qed.
+
+(** ** from positions to identities: objects have distinct ids *)
+Lemma id_inj h i j m mj :
+  NoDup (map pm_id h) -> nth_error h i = Some m -> nth_error h j = Some mj -> pm_id m = pm_id mj -> i = j.
+Proof.
+  intros ND Ei Ej E. rewrite NoDup_nth_error in ND. apply ND.
+  - rewrite map_length. apply nth_error_Some. congruence.
+  - rewrite !nth_error_map, Ei, Ej. simpl. congruence.
+Qed.
+
+Lemma occ_count h idx i m :
+  NoDup (map pm_id h) -> hvalid_all h idx -> nth_error h i = Some m ->
+  occ (pm_id m) (map pm_id (hreads h idx)) = count_nat i idx.
+Proof.
+  intros ND V E. induction idx as [|j r IH]; [reflexivity|]. inversion V; subst.
+  destruct (valid_some h j H1) as [mj Ej]. rewrite (hreads_cons h j r mj Ej), count_nat_cons.
+  unfold occ in *. simpl. specialize (IH H2).
+  destruct (Nat.eqb i j) eqn:X.
+  - apply Nat.eqb_eq in X. subst j. rewrite Ej in E. inversion E; subst mj.
+    rewrite N.eqb_refl. simpl. rewrite IH. reflexivity.
+  - destruct (N.eqb (pm_id m) (pm_id mj)) eqn:Y; [|exact IH].
+    apply N.eqb_eq in Y. apply Nat.eqb_neq in X. exfalso. apply X. eapply id_inj; eauto.
+Qed.
+
+Lemma trails_snapshot st script topic idx h :
+  NoDup (map pm_id h) -> hvalid_all h idx ->
+  inner_calls (ho_ev (publish_h st script topic idx h)) <> [] ->
+  forall sub, hvalid_all h sub ->
+  map pm_trail (hreads (ho_heap (publish_h st script topic idx h)) sub)
+  = map (fun m => pm_trail m ++ tag_block (occ (pm_id m) (map pm_id (hreads h idx))) (transform_tags st))
+        (hreads h sub).
+Proof.
+  intros ND V NE. induction sub as [|i r IH]; intros Vs; [reflexivity|]. inversion Vs; subst.
+  destruct (valid_some h i H1) as [m E].
+  destruct (publish_h_trails st script topic idx h V NE i m E) as (m' & N' & T').
+  rewrite (hreads_cons _ i r m' N'), (hreads_cons h i r m E). simpl.
+  rewrite IH by exact H2. rewrite T', (occ_count h idx i m ND V E). reflexivity.
+Qed.
+
+Lemma publish_h_trail_ok st script topic idx h :
+  NoDup (map pm_id h) -> hvalid_all h idx ->
+  trail_ok_dup st (PObs topic (hreads h idx) (ho_ev (publish_h st script topic idx h)) (hd None script)
+                        (ho_res (publish_h st script topic idx h))
+                        (hreads (ho_heap (publish_h st script topic idx h)) idx)) = true.
+Proof.
+  intros ND V. unfold trail_ok_dup. cbn [c_ev c_before].
+  destruct (publish_h_shape st script topic idx h) as (_ & _ & [(B1 & _) | (B1 & _)]).
+  - rewrite B1. reflexivity.
+  - pose proof (trails_snapshot st script topic idx h ND V) as T.
+    rewrite B1 in *. rewrite (T ltac:(discriminate) idx V).
+    apply (list_eqb_refl (list_eqb N.eqb) (list_eqb_refl N.eqb N.eqb_refl)).
+Qed.
+
+(** ** whole runs: the complete acceptor accepts every in-place run *)
+Lemma pstep_h_ids st s c : map pm_id (ps_heap (pstep_h st s c)) = map pm_id (ps_heap s).
+Proof.
+  unfold pstep_h. cbn [ps_heap].
+  destruct (publish_h_shape st (ps_script s) (pc_topic c) (pc_batch c) (ps_heap s)) as (A & _). exact A.
+Qed.
+
+Lemma prun_h_trails_ok st calls : forall s,
+  NoDup (map pm_id (ps_heap s)) -> valid_calls (length (ps_heap s)) calls ->
+  forallb (trail_ok_dup st) (pobs_run_h st s calls) = true.
+Proof.
+  induction calls as [|c cs IH]; intros s ND H; [reflexivity|]. inversion H as [|? ? V Hr]; subst.
+  cbn [pobs_run_h forallb]. rewrite (publish_h_trail_ok st _ _ _ _ ND V). simpl.
+  apply IH; [rewrite pstep_h_ids; exact ND | unfold valid_calls; rewrite pstep_h_len; exact Hr].
+Qed.
+
+Lemma pub_monitor_full_model st heap script calls tab :
+  NoDup (map pm_id heap) -> valid_calls (length heap) calls ->
+  counts_agree plabel_eqb tab (ps_obs (prun_h st heap script calls)) = true ->
+  pub_monitor_full st (pobs_run_h st (PS heap script [] [] []) calls) tab = true.
+Proof.
+  intros ND G H. unfold pub_monitor_full.
+  rewrite (pub_monitor_any_model_all st heap script calls tab G H).
+  rewrite (prun_h_trails_ok st calls (PS heap script [] [] []) ND G). reflexivity.
+Qed.
